@@ -772,6 +772,81 @@ def run_limbseq(facts, run, prop, type_filter=None):
     return n_seq
 
 
+def _root_local(b, o):
+    """Local an argument operand is a plain copy of (chasing `_t = copy _m`), or None for anything computed."""
+    if o[0] not in ("cp", "mv") or len(o[1]) != 1:
+        return None
+    l = o[1][0]
+    for _ in range(6):
+        d = b.single_def(l)
+        if d and d[2] == "A" and d[3][2][0] == "use" and d[3][2][1][0] in ("cp", "mv") and len(d[3][2][1][1]) == 1:
+            l = d[3][2][1][1][0]
+        else:
+            break
+    return l
+
+
+def run_argswap(facts, run, prop, type_filter=None):
+    """K5f: within one function, a chain of >= 4 calls to one crate-local callee in which every call but one passes the
+    same two locals (a, b) in argument positions (p, q), and the remaining call passes exactly (b, a): the transposed
+    pair in one row of an unrolled table scan / select chain.  Counts the unanimous chains examined."""
+    cfg = facts.config
+    n_chain = 0
+    for fn in facts.fns.values():
+        if fn["kind"] == "Closure" or not fn["file"].startswith("src/"):
+            continue
+        if type_filter and not type_filter(fn):
+            continue
+        b = Body(fn)
+        calls = {}
+        for bi in b.rpo():
+            if bi not in b.reach:
+                continue
+            t = b.blocks[bi]["t"]
+            if t[0] != "call" or not t[1].get("l"):
+                continue
+            roots = [_root_local(b, o) for o in t[2]]
+            calls.setdefault(t[1]["f"], []).append((roots, t[5]))
+        for callee, cl in sorted(calls.items()):
+            if len(cl) < 4:
+                continue
+            argc = len(cl[0][0])
+            if any(len(r) != argc for r, _l in cl):
+                continue
+            for p in range(argc):
+                for q in range(p + 1, argc):
+                    pairs = [(r[p], r[q]) for r, _l in cl]
+                    if any(a is None or c is None for a, c in pairs):
+                        continue
+                    ty_p = fn["locals"][pairs[0][0]][0]
+                    ty_q = fn["locals"][pairs[0][1]][0]
+                    if ty_p != ty_q:
+                        continue
+                    common = max(set(pairs), key=pairs.count)
+                    if common[0] == common[1]:
+                        continue
+                    k = pairs.count(common)
+                    if k == len(pairs):
+                        n_chain += 1
+                        run.oblige()
+                        continue
+                    odd = [i for i, x in enumerate(pairs) if x != common]
+                    if k == len(pairs) - 1 and pairs[odd[0]] == (common[1], common[0]):
+                        n_chain += 1
+                        line = cl[odd[0]][1]
+                        nm = lambda l: fn["locals"][l][1] or "_%d" % l
+                        run.oblige(ok=False)
+                        run.add(Finding("K5f", "%s|%s|%d,%d" % (fn_key(fn), callee.split("::")[-1], p + 1, q + 1),
+                                        "limbcov K5f: in %s (%s:%s) %d of the %d calls to %s pass (`%s`, `%s`) as arguments %d and %d; "
+                                        "this one passes them transposed" % (
+                                            fn["name"], fn["file"], line, k, len(pairs), callee.split("::")[-1],
+                                            nm(common[0]), nm(common[1]), p + 1, q + 1),
+                                        config=cfg, site="%s:%s" % (fn["file"], line), prop=prop))
+    run.stats = getattr(run, "stats", {})
+    run.stats.update(k5f_chains=n_chain)
+    return n_chain
+
+
 # ---------------------------------------------------------------------------
 # K5d: a decoder overwrites its whole receiver on every path
 # ---------------------------------------------------------------------------
